@@ -679,4 +679,105 @@ theorem lintOpen_static {e e' : Emu} (h : SameStatic e e') : lintOpen e' = lintO
     rw [h.threads]
 
 
+/-! ### static lookups are invariant -/
+
+theorem find_static (cpus cpus' : List Cpu) (h : cpus'.map Cpu.static = cpus.map Cpu.static)
+    (p : Nat × Nat × Int × Bool → Bool) :
+    (cpus'.find? (fun c => p c.static)).map (·.gindex) = (cpus.find? (fun c => p c.static)).map (·.gindex) := by
+  have key : ∀ l : List Cpu, (l.find? (fun c => p c.static)).map (·.gindex) =
+      ((l.map Cpu.static).find? p).map (·.1) := by
+    intro l
+    rw [List.find?_map]
+    show Option.map _ (l.find? (p ∘ Cpu.static)) = _
+    cases l.find? (p ∘ Cpu.static) <;> rfl
+  rw [key, key, h]
+
+theorem loomGetCpu_static {e e' : Emu} (h : SameStatic e e') (loom : Nat) (index : Int) :
+    loomGetCpu e' loom index = loomGetCpu e loom index := by
+  unfold loomGetCpu
+  by_cases hi : index = -1
+  · simp only [hi, if_true]
+    exact find_static e.cpus e'.cpus h.cpus (fun s => s.2.1 = loom && s.2.2.2)
+  · simp only [hi, if_false]
+    exact find_static e.cpus e'.cpus h.cpus (fun s => s.2.1 = loom && !s.2.2.2 && s.2.2.1 = index)
+
+theorem SameStatic.thread {e e' : Emu} (h : SameStatic e e') {ti : Nat} {t' : Thread}
+    (ht : e'.threads[ti]? = some t') : ∃ t, e.threads[ti]? = some t ∧ t'.static = t.static := by
+  have h1 : (e'.threads.map Thread.static)[ti]? = some t'.static := by rw [List.getElem?_map, ht]; rfl
+  rw [h.threads, List.getElem?_map] at h1
+  cases hb : e.threads[ti]? with
+  | none => rw [hb] at h1; cases h1
+  | some t => rw [hb] at h1; exact ⟨t, rfl, by simpa using h1.symm⟩
+
+theorem SameStatic.symm {e e' : Emu} (h : SameStatic e e') : SameStatic e' e :=
+  ⟨h.cpus.symm, h.threads.symm, h.enabled.symm, h.lint.symm⟩
+
+theorem static_loom {t t' : Thread} (h : t'.static = t.static) : t'.loom = t.loom := by
+  have : t'.static.2.2.2.1 = t.static.2.2.2.1 := by rw [h]
+  exact this
+
+theorem static_tid {t t' : Thread} (h : t'.static = t.static) : t'.tid = t.tid := by
+  have : t'.static.2.1 = t.static.2.1 := by rw [h]
+  exact this
+
+
+/-! ### inversion: what an accepted event must have carried -/
+
+theorem preThreadExecute_ok_inv {e e1 : Emu} {ti : Nat} {t : Thread} (ht : e.threads[ti]? = some t)
+    {payload : List Nat} (h : preThreadExecute e ti payload = .ok e1) :
+    4 ≤ payload.length ∧ ∃ ci, loomGetCpu e t.loom (i32At payload 0) = some ci := by
+  unfold preThreadExecute at h
+  simp only [ht] at h
+  by_cases h1 : t.state = .running
+  · simp only [h1, if_true] at h; cases h
+  by_cases h2 : payload.length < 4
+  · simp only [h1, h2, if_true, if_false] at h; cases h
+  cases h3 : loomGetCpu e t.loom (i32At payload 0) with
+  | none => simp only [h1, h2, h3, if_false] at h; cases h
+  | some ci => exact ⟨by omega, ci, rfl⟩
+
+theorem preAffinitySet_ok_inv {e e1 : Emu} {ti : Nat} {t : Thread} (ht : e.threads[ti]? = some t)
+    {payload : List Nat} (h : preAffinitySet e ti payload = .ok e1) :
+    payload.length = 4 ∧ ∃ ci, loomGetCpu e t.loom (i32At payload 0) = some ci := by
+  unfold preAffinitySet at h
+  simp only [ht] at h
+  cases hcpu : t.cpu with
+  | none => simp only [hcpu] at h; cases h
+  | some cur =>
+    simp only [hcpu] at h
+    by_cases h1 : (!t.state.isActive) = true
+    · simp only [h1, if_true] at h; cases h
+    by_cases h2 : payload.length ≠ 4
+    · rw [if_neg h1, if_pos h2] at h; cases h
+    cases h3 : loomGetCpu e t.loom (i32At payload 0) with
+    | none => rw [if_neg h1, if_neg h2] at h; simp only [h3] at h; cases h
+    | some ci => exact ⟨by simpa using h2, ci, rfl⟩
+
+theorem preAffinityRemote_ok_inv {e e1 : Emu} {ti : Nat} {t : Thread} (ht : e.threads[ti]? = some t)
+    {payload : List Nat} (h : preAffinityRemote e ti payload = .ok e1) :
+    payload.length = 8 ∧ ∃ r ci, findRemote e t (i32At payload 1) = some r ∧
+      loomGetCpu e t.loom (i32At payload 0) = some ci := by
+  unfold preAffinityRemote at h
+  simp only [ht] at h
+  by_cases h2 : payload.length ≠ 8
+  · rw [if_pos h2] at h; cases h
+  rw [if_neg h2] at h
+  cases hr : findRemote e t (i32At payload 1) with
+  | none => simp only [hr] at h; cases h
+  | some r =>
+    simp only [hr] at h
+    by_cases hd : r.state = .dead
+    · simp only [hd, if_true] at h; cases h
+    by_cases hu : r.state = .unknown
+    · simp only [hd, hu, if_true, if_false] at h; cases h
+    simp only [hd, hu, if_false] at h
+    cases hcpu : r.cpu with
+    | none => simp only [hcpu] at h; cases h
+    | some cur =>
+      simp only [hcpu] at h
+      cases h3 : loomGetCpu e t.loom (i32At payload 0) with
+      | none => simp only [h3] at h; cases h
+      | some ci => exact ⟨by simpa using h2, r, ci, rfl, rfl⟩
+
+
 end Ovni.Emu
